@@ -30,6 +30,13 @@ func upgrReplayScenario(name string, beh []map[string]any, wt bool) Scenario {
 		nswitch := 0
 		w.Hook("upgrade", func(string, ...any) { nswitch++ })
 		cands := map[string]*WSClient{}
+		ponged := map[*WSClient]bool{}
+		probeSent := map[*WSClient]bool{}
+		onPkt := func(wc *WSClient, p Pkt) {
+			if p.Type == "pong" && string(p.Data) == "probe" {
+				ponged[wc] = true
+			}
+		}
 		parkN := map[string]int{} // candidate -> park number of its goroutine held at a gate
 		g.Park("upgrade.gated", true)
 		g.Park("upgrade.switching", true)
@@ -40,9 +47,9 @@ func upgrReplayScenario(name string, beh []map[string]any, wt bool) Scenario {
 			case "dial":
 				before, _ := g.Newest()
 				if wt {
-					cl = w.DialWT(s, nil)
+					cl = w.DialWT(s, onPkt)
 				} else {
-					cl = w.DialWS(s, "", nil, nil)
+					cl = w.DialWS(s, "", nil, onPkt)
 				}
 				cands[c] = cl
 				synctest.Wait()
@@ -52,8 +59,10 @@ func upgrReplayScenario(name string, beh []map[string]any, wt bool) Scenario {
 			case "enter":
 				g.ReleaseN(parkN[c])
 				delete(parkN, c)
-			case "probe":
+			case "sendprobe": // as soon as the connection is open - possibly before MaybeUpgrade has attached its listeners
 				cl.SendPkt(Pkt{Type: "ping", Data: []byte("probe")})
+				probeSent[cl] = true
+			case "probe": // the transport's reader reads the probe and the listener answers it, whenever they can
 			case "accept":
 				before, _ := g.Newest()
 				cl.SendPkt(Pkt{Type: "upgrade"})
@@ -86,11 +95,15 @@ func upgrReplayScenario(name string, beh []map[string]any, wt bool) Scenario {
 						act["tr"] = "polling"
 					}
 				}
-				cm := map[string]any{}
+				cm, pm := map[string]any{}, map[string]any{}
 				for k, x := range cands {
 					cm[k] = x.closed
+					pm[k] = ponged[x]
 				}
-				act["closed"] = cm
+				act["closed"], act["probed"] = cm, pm
+				if st, ok := exp["settled"].(bool); ok && !st {
+					continue // the reader is about to answer a probe: compared after that step
+				}
 				rec.Log("upgr.expect", "sid", sid, "a", a["a"], "c", c, "exp", exp, "act", act)
 			}
 		}
@@ -98,6 +111,17 @@ func upgrReplayScenario(name string, beh []map[string]any, wt bool) Scenario {
 		g.Park("upgrade.switching", false)
 		g.ReleaseAll()
 		synctest.Wait()
+		// a candidate the server is entertaining now (the session is marked upgrading, its connection is the only one still open) and
+		// that has sent its probe has been answered - whenever the probe was sent
+		var open []*WSClient
+		for _, x := range cands {
+			if !x.closed {
+				open = append(open, x)
+			}
+		}
+		if so := w.Sock(sid); so != nil && len(open) == 1 {
+			rec.Log("upgr.final", "sid", sid, "upgrading", so.Upgrading(), "sentProbe", probeSent[open[0]], "ponged", ponged[open[0]])
+		}
 		// the session must still work on whatever transport it is on; attempts that were left half-way run into the upgrade timeout
 		go w.Send(sid, SendOpt{Size: 5})
 		synctest.Wait()
